@@ -126,16 +126,20 @@ def check_answer(im, req, recurse, strip, eqs, bad, j):
                     env[a] = sympy.Float(rng.uniform(0.5, 2.0))
                 for a in orig.atoms(im.M.Variable):
                     env[a] = sympy.Float(rng.uniform(0.5, 2.0))
-                qenv = {d: sympy.Float(float(d)) for d in orig.atoms(im.M.Quantity)}
+                # exact values: SymPy's evalf answers a cancelling sum of Floats with a stand-in such as 2**-31
+                env = {k_: sympy.Rational(float(v_)) for k_, v_ in env.items()}
+                qenv = {d: sympy.Rational(float(d)) for d in orig.atoms(im.M.Quantity)}
                 try:
-                    a = complex(orig.xreplace(env).xreplace(qenv).evalf())
-                    b = complex(eq.rhs.xreplace(env).evalf())
+                    a = complex(orig.xreplace(env).xreplace(qenv).evalf(30))
+                    stripped = eq.rhs.xreplace(env)
+                    stripped = stripped.xreplace({f: sympy.Rational(float(f)) for f in stripped.atoms(sympy.Float)})
+                    b = complex(stripped.evalf(30))
                 except Exception:
                     continue
                 try:
                     # the error is measured against the size of the terms (sum of the summands' sizes, product of the
                     # factors' sizes), not against 1: a tiny constant such as 1.6e-19 must survive the substitution
-                    differs = abs(a - b) > 1e-9 * max(expr_scale(orig.xreplace(env).xreplace(qenv)), abs(a) * 1e-3)
+                    differs = abs(a - b) > 1e-9 * expr_scale(orig, {**env, **qenv})
                 except OverflowError:       # values beyond the double range: compare as they are
                     differs = a != b
                 if differs:
@@ -146,22 +150,25 @@ def check_answer(im, req, recurse, strip, eqs, bad, j):
                 bad.append(('unit-stripped equation for %s still contains a Quantity' % eq.lhs, {'op_index': j}))
 
 
-def expr_scale(e):
-    """size of a numeric SymPy expression: |value| for atoms and functions, sum over summands, product over factors"""
+def expr_scale(e, val):
+    """size of an expression at the leaf values `val`: |value| for leaves and functions, sum over summands, product over
+    factors (computed on the ORIGINAL structure: numbers that cancel still count with their size)"""
+    if e in val:
+        return abs(complex(val[e]))
     if e.is_Add:
-        return sum(expr_scale(a) for a in e.args)
+        return sum(expr_scale(a, val) for a in e.args)
     if e.is_Mul:
         out = 1.0
         for a in e.args:
-            out *= expr_scale(a)
+            out *= expr_scale(a, val)
         return out
     if e.is_Pow and e.exp.is_number:
         try:
-            return expr_scale(e.base) ** float(e.exp)
+            return expr_scale(e.base, val) ** float(e.exp)
         except Exception:
             pass
     try:
-        return abs(complex(e.evalf()))
+        return abs(complex(e.xreplace(val).evalf(30)))
     except Exception:
         return 1.0
 
